@@ -60,14 +60,23 @@ def strace(args, log, inject=None):
         cmd += ["-e", "inject=%s:signal=SIGKILL:when=%d" % inject]
     return subprocess.run(cmd + args, env=ENV, stdout=subprocess.PIPE, stderr=subprocess.STDOUT, text=True, timeout=600)
 
+TRIMS = []     # (bytes of the last primary file as the crash left it, length after Open) - replayed on Trimb.trim_len
+
 def recover(hist, d, ack):
     p = subprocess.run([CD, "recover", hist, d, ack], env=ENV, stdout=subprocess.PIPE, stderr=subprocess.STDOUT, text=True, timeout=600)
+    for l in p.stdout.split("\n"):
+        if l.startswith("TRIM "):
+            f = l.split()
+            if len(f) == 3:
+                TRIMS.append((f[1], int(f[2])))
+            elif len(f) == 2:
+                TRIMS.append(("", int(f[1])))
     lines = [l for l in p.stdout.strip().split("\n") if l.startswith(("OK", "BAD"))]
     if p.returncode == 0 and lines and lines[-1].startswith("OK"):
         return None
     return (lines[-1] if lines else "recover crashed: " + p.stdout[-300:])
 
-def enumerate_history(hist, wd, rng, max_points=None, torn=True):
+def enumerate_history(hist, wd, rng, max_points=None, torn=True, keep_writes=0):
     """Returns (n_points, n_torn, failures[list of dict])."""
     base = os.path.join(wd, os.path.basename(hist) + ".d")
     shutil.rmtree(base, ignore_errors=True)
@@ -89,6 +98,11 @@ def enumerate_history(hist, wd, rng, max_points=None, torn=True):
     if max_points and len(ks) > max_points:
         # crash points behind the rare calls (GC marks, truncations, unlinks, renames, directory operations) are always kept
         rare = [k for k in ks if calls[k - 2]["call"] not in ("write", "openat")]
+        if keep_writes:
+            # ... and so are the first writes into index files and into primary files (their torn variants exercise the recovery scan / trim)
+            for pat in (r"/i\.\d+$", r"/d\.\d+$"):
+                ws = [k for k in ks if calls[k - 1]["call"] == "write" and calls[k - 1]["data"] and re.search(pat, calls[k - 1]["path"] or "")]
+                rare += ws[:keep_writes] + ws[-keep_writes:]
         rest = [k for k in ks if k not in rare]
         ks = sorted(set(rare + rng.sample(rest, max(0, min(len(rest), max_points - len(rare))))))
     shutil.rmtree(d0, ignore_errors=True)
